@@ -31,6 +31,23 @@ import (
 //     cwd outside B) are expanded with the whole level >= 2 alphabet like any
 //     other.
 //
+// What Sub hands out is part of the wrapper's surface: calls made THROUGH the
+// returned view must be confined to the view's directory, and nothing created
+// through it may lead out of B when it is met through the wrapper.
+//   - Sub(d)>call(p): sv := v.Sub(d), d in subDirs, then one call of the
+//     alphabet on sv with p in subPaths (absolute, "/../x", the base's own
+//     absolute paths of objects outside B, a few relative ones) or a pair of
+//     subPairs. First call of a history only (the view inherits a copy of the
+//     cwd string, which means something else in its namespace).
+//   - Sub(d)>Symlink(t,"/b")+...: sv := v.Sub(d), sv.Symlink(t, "/b") with t in
+//     subLinkTargets (absolute path of an object outside B in the base's
+//     namespace, absolute path existing in the view, relative targets climbing
+//     above the view and above B), then the link is met through the WRAPPER
+//     (Lstat, Stat, ReadFile, ReadDir of d/b) and through sv (Stat, ReadFile of
+//     /b) - operation SubLink -, or written through the wrapper and through sv
+//     (WriteFile) - operation SubLinkW. All levels. A view that does not advertise FeatSymlink must refuse the link
+//     as the wrapper itself does.
+//
 // Levels. The operation list is static and sorted by decreasing MaxLevel, the
 // deepest level at which an operation is applied; NumOps of the system (which
 // bfs asks after replaying a history) is the length of the prefix that applies
@@ -51,14 +68,65 @@ type opT struct {
 	A    string `json:"a"`
 	B    string `json:"b,omitempty"`
 	Two  bool   `json:"two,omitempty"`
+	// Dir: the operation is made through the view returned by Sub(Dir)
+	// (Call is then subPrefix + the call made on the view, or SubLink).
+	Dir string `json:"dir,omitempty"`
 	// MaxLevel is the deepest position in a history (1-based) at which the
 	// operation is applied.
 	MaxLevel int `json:"max_level"`
 }
 
+const subPrefix = "Sub:"
+
+func isSubLink(o opT) bool { return o.Call == "SubLink" || o.Call == "SubLinkW" }
+
+// subDirs: directories of B of which a view is taken (a directory below B's
+// root, and B's root itself).
+var subDirs = []string{"/a", "/"}
+
+// subLinkName is the name, in the view, of the link made by SubLink ("b" is a
+// segment of the alphabet: later calls of a history can name it).
+const subLinkName = "/b"
+
+// subLinkTargets, see subLinkClass for what each is with respect to a view.
+var subLinkTargets = []string{
+	"/secret", siblingPath + "/f", siblingPath, unrelated, "/top/secret2", basePath + "/f",
+	"/f", "/a/f", "/a", "/nothing",
+	"../../../secret", "../../bb/f", "../bb/f", "../../bb", "../f", "f", "a/f",
+}
+
+// subPaths are the operands of the calls made on a view.
+var subPaths = []string{
+	"/", "/..", "/../..", "/f", "/x", "/a", "/../f", "/../x", "/../a", "/a/../../f",
+	"/../bb/f", "/../../bb/f", "/../../bb/x", "/../../secret", "/../../../secret", "/../../secret2",
+	siblingPath + "/f", siblingPath + "/x", "/secret", basePath + "/f", basePath,
+	"..", "../f", "../x", "f", "x", "../../bb/f", "../../../secret",
+}
+
+// subPairs are the operands of the two-path calls made on a view.
+var subPairs = [][2]string{
+	{"/f", "/x"}, {"/f", "/../x"}, {"/../f", "/x"}, {"/f", "/../../bb/x"}, {"/../../bb/f", "/x"},
+	{"/f", "/../bb/x"}, {"/../bb/f", "/x"}, {"/f", siblingPath + "/x"}, {siblingPath + "/f", "/x"},
+	{"/../../../secret", "/x"}, {"/f", "/../../../secret"}, {"f", "../x"}, {"../f", "x"},
+}
+
 func (o opT) String() string {
 	if o.Call == "Getwd" {
 		return "Getwd()"
+	}
+
+	switch o.Call {
+	case "SubLink":
+		return fmt.Sprintf("Sub(%q)>Symlink(%q,%q)+Lstat+Stat+ReadFile+ReadDir+sv.Stat+sv.ReadFile", o.Dir, o.A, o.B)
+	case "SubLinkW":
+		return fmt.Sprintf("Sub(%q)>Symlink(%q,%q)+WriteFile+sv.WriteFile", o.Dir, o.A, o.B)
+	}
+
+	if o.Dir != "" {
+		in := o
+		in.Call, in.Dir = strings.TrimPrefix(o.Call, subPrefix), ""
+
+		return fmt.Sprintf("Sub(%q)>%s", o.Dir, in.String())
 	}
 
 	if o.Call == "BaseChdir" {
@@ -283,6 +351,26 @@ func buildOps(tier string) []opT {
 
 		for _, c := range singleCalls {
 			ops = append(ops, opT{Call: c, A: p, MaxLevel: lvl})
+		}
+	}
+
+	// through the views handed out by Sub
+	for _, d := range subDirs {
+		for _, t := range subLinkTargets {
+			ops = append(ops, opT{Call: "SubLink", Dir: d, A: t, B: subLinkName, MaxLevel: maxLevels},
+				opT{Call: "SubLinkW", Dir: d, A: t, B: subLinkName, MaxLevel: maxLevels})
+		}
+
+		for _, p := range subPaths {
+			for _, c := range singleCalls {
+				ops = append(ops, opT{Call: subPrefix + c, Dir: d, A: p, MaxLevel: 1})
+			}
+		}
+
+		for _, pr := range subPairs {
+			for _, c := range []string{"Rename", "Link", "Symlink"} {
+				ops = append(ops, opT{Call: subPrefix + c, Dir: d, A: pr[0], B: pr[1], Two: true, MaxLevel: 1})
+			}
 		}
 	}
 
